@@ -49,26 +49,57 @@ def _mag(b_int, exp10):
     return float(Fraction(b_int) * Fraction(10) ** exp10)
 
 
-def _substances_arg(form):
+def _registry(subs, keys):
+    """the registry order the form prescribes (spec: Electrolytes!Registry) - list surgery only"""
+    keys = list(keys)
+    if subs.get("order") == "rev":
+        keys = keys[::-1]
+    elif subs.get("order") == "rot" and len(keys) > 1:
+        keys = keys[1:] + keys[:1]
+    return ([subs["front"]] if subs.get("front") else []) + keys + ([subs["back"]] if subs.get("back") else [])
+
+
+def _substances_arg(form, keys, factory=None):
     """the `substances` argument of a mapping form: not given / string of keys / key -> Substance"""
     subs = form.get("subs") or {"kind": "none"}
     if subs["kind"] == "none":
         return {}
+    reg = _registry(subs, keys)
     if subs["kind"] == "str":
-        return {"substances": " ".join(subs["keys"])}
+        return {"substances": " ".join(reg)}
     from collections import OrderedDict
     from chempy import Substance
-    return {"substances": OrderedDict((k, Substance.from_formula(k)) for k in subs["keys"])}
+    return {"substances": OrderedDict((k, (factory or Substance.from_formula)(k)) for k in reg)}
 
 
-def _call_ions(ions, keys, form):
+class _Sub(object):
+    """what a user-supplied substance_factory returns: an object with a charge"""
+    def __init__(self, charge):
+        self.charge = charge
+
+
+def _call_ions(ions, keys, form, fkeys=()):
     """ions: [(b_int, z)]; returns the observation dict (value in mol/kg)."""
     from chempy.electrolytes import ionic_strength
+    from chempy.units import default_units as u
     import numpy as np
     f = form["form"]
     zs = [z for _, z in ions]
+    opts = form.get("opts") or {}
+    okw = {}
+    if opts.get("warn", "default") != "default":
+        okw["warn"] = opts["warn"] == "on"
+    if opts.get("ukw"):
+        okw["units"] = u
+    if opts.get("factory"):  # opaque keys; the charges come from the factory
+        keys = list(fkeys)
+        table = dict(zip(keys, zs))
+        okw["substance_factory"] = lambda k: _Sub(table[k])
     if f == "list":
         args = ([_mag(b, form["exp10"]) for b, _ in ions], zs)
+        kw = {}
+    elif f == "nparray":
+        args = (np.array([_mag(b, form["exp10"]) for b, _ in ions]), np.array(zs, dtype=int))
         kw = {}
     elif f == "qarray":
         args = (np.array([_mag(b, form["exp10"]) for b, _ in ions]) * physq.UNITS[form["unit"]], zs)
@@ -88,7 +119,7 @@ def _call_ions(ions, keys, form):
     elif f == "dict":
         from collections import OrderedDict
         args = (OrderedDict((k, _mag(b, form["exp10"])) for k, (b, _) in zip(keys, ions)),)
-        kw = _substances_arg(form)
+        kw = _substances_arg(form, keys, okw.get("substance_factory"))
     elif f == "qdict":
         from collections import OrderedDict
         d = OrderedDict()
@@ -98,9 +129,10 @@ def _call_ions(ions, keys, form):
             else:
                 d[k] = _mag(b, form["exp10b"]) * physq.UNITS[form["unit2"]]
         args = (d,)
-        kw = _substances_arg(form)
+        kw = _substances_arg(form, keys, okw.get("substance_factory"))
     else:
         raise core.MachineryFailure("unknown form %r" % (f,))
+    kw = dict(kw, **okw)
     o = physq.observe(lambda: ionic_strength(*args, **kw), WARN_WORDS)
     out = dict(raised=o["raised"], exc=o["exc"], warned=o["warned"], messages=o["messages"][:1], value=None)
     if not o["raised"]:
@@ -115,8 +147,11 @@ def _call_ions(ions, keys, form):
 
 def _form_name(form):
     subs = (form.get("subs") or {}).get("kind", "none")
+    opts = form.get("opts") or {}
     return form["form"] + (":" + form["unit"] if form["unit"] != "none" else "") + \
-        ("+substances-" + subs if subs != "none" else "")
+        ("+substances-" + subs if subs != "none" else "") + \
+        ("+warn-" + opts["warn"] if opts.get("warn", "default") != "default" else "") + \
+        ("+units-kw" if opts.get("ukw") else "") + ("+factory" if opts.get("factory") else "")
 
 
 def _judge_ions(obs, exp, form):
@@ -129,9 +164,10 @@ def _judge_ions(obs, exp, form):
         return "value"
     if form["unit"] != "none" and not obs.get("has_unit"):
         return "unit-lost"
-    if exp["warn"] == "yes" and not obs["warned"]:
+    want_warn = exp.get("warn_off", "no") if (form.get("opts") or {}).get("warn") == "off" else exp["warn"]
+    if want_warn == "yes" and not obs["warned"]:
         return "missing-warning"
-    if exp["warn"] == "no" and obs["warned"]:
+    if want_warn == "no" and obs["warned"]:
         return "spurious-warning"
     return None
 
@@ -141,7 +177,7 @@ def replay_ion_case(case):
     bad = []
     n = 0
     for form in case["in"]["forms"]:
-        obs = _call_ions(ions, case["in"]["keys"], form)
+        obs = _call_ions(ions, case["in"]["keys"], form, case["in"].get("fkeys", ()))
         n += 1
         why = _judge_ions(obs, case["exp"], form)
         if why:
@@ -162,7 +198,18 @@ def _expected_value(exp):
 
 
 def _backend(name):
-    return {"default": None, "math": math}[name]
+    return {"default": None, "math": math, "sympy": "sympy"}[name]
+
+
+def _make(value, arg, mode):
+    """physq.make, or a two-element array of it for the array-valued configurations"""
+    x = physq.make(value, arg)
+    if mode["mode"] != "nparray":
+        return x
+    import numpy as np
+    if physq.is_quantity(x):
+        return np.array([float(x.magnitude)] * 2) * x.units
+    return np.array([x, x])
 
 
 def _call_dh(case, mode, omit=()):
@@ -172,7 +219,7 @@ def _call_dh(case, mode, omit=()):
     pt = case["in"]["pt"]
     F = physq.frac
     if kind in ("lim", "ext", "dav"):
-        IS = physq.make(F(pt["IS"]), mode["IS"])
+        IS = _make(F(pt["IS"]), mode["IS"], mode)
         I0 = physq.make(F(pt["I0"]), mode["I0"])
         z = int(F(pt["z"]))
         A = float(F(pt["A"]))
@@ -192,14 +239,16 @@ def _call_dh(case, mode, omit=()):
             fn = lambda: el.davies_log_gamma(IS, z, A, **kw)
         unit = "1"
     elif kind in ("A", "B"):
-        T = physq.make(F(pt["T"]), mode["T"])
-        rho = physq.make(F(pt["rho"]), mode["rho"])
+        T = _make(F(pt["T"]), mode["T"], mode)
+        rho = _make(F(pt["rho"]), mode["rho"], mode)
         eps = float(F(pt["eps"]))
         f = el.A if kind == "A" else el.B
         kw = {}
         if "b0" not in omit:
             kw["b0"] = physq.make(F(pt["b0"]), mode["b0"])
-        if mode["mode"] != "plain":
+        if mode.get("backend", "default") != "default":
+            kw["backend"] = _backend(mode["backend"])
+        if mode["mode"] not in ("plain", "nparray") or mode.get("consts") or mode.get("uobj"):
             kw["constants"] = consts if mode["consts"] else None
             kw["units"] = u if mode.get("uobj", True) else None
         fn = lambda: f(eps, T, rho, **kw)
@@ -212,15 +261,23 @@ def _call_dh(case, mode, omit=()):
         T, eps, rho = float(F(pt["T"])), float(F(pt["eps"])), float(F(pt["rho"]))
         be = _backend(mode["backend"])
         ckw = {} if ("C" in omit or kind == "lap") else {"C": float(F(pt["C"]))}
-        if mode["mode"] == "class":
+        if mode["mode"] in ("class", "classreuse"):
             conc = [float(F(x)) for x in case["in"]["conc"]]
+            before = [float(F(x)) for x in case["in"].get("conc_before", [])]
+            reuse = mode["mode"] == "classreuse"
             if not conc or kind == "dap":
                 return None
             if kind == "lap":
-                fn = lambda: el.LimitingDebyeHuckelActivityProduct(nus, zs, T, eps, rho)(conc)
+                mk = lambda: el.LimitingDebyeHuckelActivityProduct(nus, zs, T, eps, rho)
             else:
                 cargs = (ckw["C"],) if ckw else ()
-                fn = lambda: el.ExtendedDebyeHuckelActivityProduct(nus, zs, sizes, T, eps, rho, *cargs)(conc)
+                mk = lambda: el.ExtendedDebyeHuckelActivityProduct(nus, zs, sizes, T, eps, rho, *cargs)
+
+            def fn():
+                obj = mk()
+                if reuse:
+                    obj(before)  # an earlier call of the same instance
+                return obj(conc)
         elif kind == "lap":
             fn = lambda: el.limiting_activity_product(IS, nus, zs, T, eps, rho, backend=be)
         elif kind == "eap":
@@ -232,8 +289,16 @@ def _call_dh(case, mode, omit=()):
     out = dict(raised=o["raised"], exc=o["exc"], value=None, dims=None)
     if not o["raised"]:
         try:
-            out["dims"] = physq.dims(o["value"])
-            out["value"] = physq.magnitude_in(o["value"], unit) if (out["dims"] is not None) else float(o["value"])
+            v = o["value"]
+            if mode["mode"] == "nparray":  # every element of an array-valued result is judged
+                import numpy as np
+                if np.size(v) != 2:
+                    raise ValueError("array-valued input gave a result of size %d" % np.size(v))
+                out["dims"] = physq.dims(v)
+                out["value2"] = physq.magnitude_in(v[1], unit) if out["dims"] is not None else float(v[1])
+                v = v[0]
+            out["dims"] = physq.dims(v) if mode["mode"] != "nparray" else out["dims"]
+            out["value"] = physq.magnitude_in(v, unit) if (out["dims"] is not None) else float(v)
         except Exception as e:  # the result cannot be expressed in the documented unit
             out["projection_failed"] = True
             out["exc"] = "projection: %s: %s" % (type(e).__name__, e)
@@ -265,7 +330,8 @@ def replay_dh_case(case):
         elif obs.get("projection_failed") or (
                 obs["dims"] is not None and sorted(map(list, obs["dims"])) != sorted([d[0], float(d[1])] for d in exp["dim"])):
             why = "dimension"
-        elif not physq.close(obs["value"], want, rtol, atol=0.0):
+        elif not physq.close(obs["value"], want, rtol, atol=0.0) or (
+                "value2" in obs and not physq.close(obs["value2"], want, rtol, atol=0.0)):
             why = "value"
         if why:
             obs = dict(obs)
@@ -358,13 +424,13 @@ def run_trace(item):
 
 # ------------------------------------------------------------------ driver
 ION_ACTIONS = ["GenAddIon", "GenPermute", "GenMerge", "GenScaleAll", "Finish"]
-SLICES_Q = [("Electrolytes_MC", "ions_q", ION_ACTIONS, 1000),
-            ("Electrolytes_MC", "dh_q", ["GenChooseDH"], None)]
-SLICES_T = [("Electrolytes_MC", "ions_q", ION_ACTIONS, 3000),
-            ("Electrolytes_MC", "ions_t", [], 3000),
-            ("Electrolytes_MC", "ionsw_t", [], 3000),
-            ("Electrolytes_MC", "ions4_t", [], 3000),
-            ("Electrolytes_MCT", "dh_t", ["GenChooseDH"], None)]
+SLICES_Q = [("Electrolytes_MC", "ions_q", ION_ACTIONS, 500),
+            ("Electrolytes_MC", "dh_q", ["GenChooseDH"], 330)]
+SLICES_T = [("Electrolytes_MC", "ions_q", ION_ACTIONS, 2000),
+            ("Electrolytes_MC", "ions_t", [], 2000),
+            ("Electrolytes_MC", "ionsw_t", [], 2000),
+            ("Electrolytes_MC", "ions4_t", [], 2000),
+            ("Electrolytes_MCT", "dh_t", ["GenChooseDH"], 5000)]
 DH_CLASSES = {"lim-q", "lim-irr", "ext-q", "ext-irr", "dav-q", "dav-irr", "A-irr", "B-irr", "lap-irr", "eap-irr",
               "dap-irr"}
 
@@ -384,7 +450,13 @@ def run(ctx):
     for module, sl, actions, cap in (SLICES_Q if ctx.quick else SLICES_T):
         cfg = "Electrolytes_MC_%s.cfg" % sl
         res = ctx.tlc(module, cfg, require_actions=actions, require_cases=20, timeout=1500, java_opts=JAVA_OPTS)
-        cases = res.cases
+        table = [c for c in res.cases if c["in"]["kind"] == "formtable"]
+        cases = [c for c in res.cases if c["in"]["kind"] != "formtable"]
+        if sl.startswith("ions"):
+            if len(table) != 1:
+                raise core.MachineryFailure("slice %s exported %d form tables" % (sl, len(table)))
+            for c in cases:  # the forms of a case: the first `nforms` entries of the exported table
+                c["in"]["forms"] = table[0]["in"]["forms"][:c["in"]["nforms"]]
         total_cases += len(cases)
         classes = sorted({c["cls"] for c in cases})
         ctx.counters["classes_" + sl] = len(classes)
@@ -416,7 +488,7 @@ def run(ctx):
     ctx.counters["tlc_cases"] = total_cases
 
     # ---- code -> spec: seeded ion lists beyond the bounds, judged by TLC
-    n = 1000 if ctx.quick else 6000
+    n = 600 if ctx.quick else 4000
     items = [gen_trace(ctx.rng) for _ in range(n)]
     outs = ctx.pmap(run_trace, items)
     traces, keep = [], []
